@@ -541,6 +541,107 @@ class ImagesRoundTrip(Contract):
 OPTIONAL_IMAGE_KEYS = ("format", "unified", "additional_variants")
 
 
+
+class ImagesEmptyCell(Contract):
+    """Images.serialize on a manifest holding an EMPTY cell next to a filled one -- {V1: {A: {I1}, A2: {}}} or {V1: {A: {I1}}, V2: {A2: {}}}
+    (an image filed and discarded again): only what holds images is written, so that the re-read manifest (readers create cells only while
+    adding images) writes the same document again.  All names and the image symbolic."""
+    name = "productmd.images.Images.serialize[manifest with an empty cell]"
+    key = "ser:images.Images:emptycell"
+
+    def __init__(self, src, T):
+        self.src, self.T = src, T
+
+    def setup(self, E):
+        from .sections import _sv_fields
+        m = E.instantiate(("images", "Images"))
+        _sv_fields(E, m.fields["compose"], ["id", "type", "date", "respin"], "compose")
+        E.assume(F.valid_compose(self.T, m.fields["compose"]))
+        n = dict((k, SV(sym.Val.VStr(z3.Const(k, sym.S)))) for k in ("V1", "V2", "A", "A2"))
+        E.assume(And(Not(eq(n["V1"], n["V2"])), Not(eq(n["A"], n["A2"]))))
+        im = E.instantiate(("images", "Image"), [m])
+        f = _sv_fields(E, im, [a for a in IMAGE_FIELDS if a != "additional_variants"], "I1")
+        im.fields["additional_variants"] = []
+        E.assume(F.valid_image(self.T, im))
+        same_variant = bool(E.decide(E.fresh("empty_cell_in_the_same_variant", z3.BoolSort())))
+        images = E.models.new_dict("images")
+        c1 = E.models.new_dict("images[V1]")
+        c1.entries.append(Entry(n["A"], True, [im]))
+        cells = [(n["V1"], c1)]
+        if same_variant:
+            c1.entries.append(Entry(n["A2"], True, []))
+        else:
+            c2 = E.models.new_dict("images[V2]")
+            c2.entries.append(Entry(n["A2"], True, []))
+            cells.append((n["V2"], c2))
+        if E.decide(E.fresh("order_reversed", z3.BoolSort())):
+            cells.reverse()
+            c1.entries.reverse()
+        for k, v in cells:
+            images.entries.append(Entry(k, True, v))
+        m.fields["images"] = images
+        return {"m": m, "n": n, "same_variant": same_variant, "path": f["path"], "data": E.models.new_dict("doc")}
+
+    def call(self, E, st):
+        return E.call(E.getattr_(st["m"], "serialize"), [st["data"]])
+
+    def post(self, E, st, out):
+        if out.kind == "raise":
+            return {"valid_manifest_is_written": False}
+        L = E.models.sd_lookup
+        p = L(st["data"], "payload", create=False)
+        imgs = L(p.value, "images", create=False) if p is not None and isinstance(p.value, SymDict) else None
+        if imgs is None or not isinstance(imgs.value, SymDict):
+            return {"valid_manifest_is_written": True, "only_cells_holding_images_are_written": False}
+        tops = [e for e in imgs.value.entries if e.present is True]
+        ok = len(tops) == 1 and isinstance(tops[0].value, SymDict)
+        if ok:
+            inner = [e for e in tops[0].value.entries if e.present is True]
+            ok = len(inner) == 1 and isinstance(inner[0].value, list) and len(inner[0].value) == 1 and \
+                And(_veq(tops[0].key, st["n"]["V1"]), _veq(inner[0].key, st["n"]["A"]))
+        return {"valid_manifest_is_written": True, "only_cells_holding_images_are_written": ok}
+
+    def concretise(self, model, st):
+        inp = dict((k, concretise.value_of(model, v)) for k, v in st["n"].items())
+        inp["same_variant"] = st["same_variant"]
+        return inp
+
+    def sample_inputs(self, rng):
+        for sv in (True, False):
+            yield {"V1": "Server", "V2": "Client", "A": "x86_64", "A2": "s390x", "same_variant": sv}
+            yield {"V1": "B", "V2": "A", "A": "s390x", "A2": "aarch64", "same_variant": sv}
+
+    def native_eval(self, inputs):
+        mod = self.src.mods["images"]
+        m = mod.Images()
+        m.compose.id, m.compose.type, m.compose.date, m.compose.respin = "F-21-20141201.0", "production", "20141201", 0
+        im = mod.Image(m)
+        for a, v in {"path": "a.iso", "mtime": 1, "size": 2, "volume_id": None, "type": "dvd", "format": "iso", "arch": "x86_64",
+                     "disc_number": 1, "disc_count": 1, "checksums": {"sha256": "a" * 64}, "implant_md5": None, "bootable": False,
+                     "subvariant": "S", "unified": False, "additional_variants": []}.items():
+            setattr(im, a, v)
+        if inputs["V1"] == inputs["V2"] or inputs["A"] == inputs["A2"]:
+            return ("skip", None), None
+        m.images = {inputs["V1"]: {inputs["A"]: set([im])}}
+        if inputs["same_variant"]:
+            m.images[inputs["V1"]][inputs["A2"]] = set()
+        else:
+            m.images[inputs["V2"]] = {inputs["A2"]: set()}
+        data = {}
+        nat = native_call(m.serialize, data)
+        if nat[0] == "raise":
+            return nat, {"valid_manifest_is_written": False}
+        got = data.get("payload", {}).get("images")
+        return nat, {"valid_manifest_is_written": True,
+                     "only_cells_holding_images_are_written": isinstance(got, dict) and list(got) == [inputs["V1"]] and
+                     list(got[inputs["V1"]]) == [inputs["A"]] and len(got[inputs["V1"]][inputs["A"]]) == 1}
+
+    def describe(self, inputs):
+        return "Images manifest {%r: {%r: {image}%s}%s} written" % (
+            inputs["V1"], inputs["A"], (", %r: {}" % inputs["A2"]) if inputs["same_variant"] else "",
+            "" if inputs["same_variant"] else ", %r: {%r: {}}" % (inputs["V2"], inputs["A2"]))
+
+
 class ImageReaderValid(Contract):
     """Image.deserialize(record) on a current-format record that is valid except for ONE corruption of field k (its value replaced by an
     arbitrary JSON value, or the key deleted): a normal return means the key was present or optional, and the loaded image satisfies
@@ -649,5 +750,5 @@ def ast_only_writer(run, src, module, cls, attr, allowed):
 
 
 def contracts(src, T):
-    return [ImagesAdd(src, T, 0), ImagesAdd(src, T, 1), ImagesAdd(src, T, 2), IdentifyObjEqDict(src, T), Add11Refile(src, T), ImagesRoundTrip(src, T)] + \
+    return [ImagesAdd(src, T, 0), ImagesAdd(src, T, 1), ImagesAdd(src, T, 2), IdentifyObjEqDict(src, T), Add11Refile(src, T), ImagesRoundTrip(src, T), ImagesEmptyCell(src, T)] + \
         [ImageReaderValid(src, T, k, mode) for k in IMAGE_FIELDS for mode in ("corrupt", "delete")]
